@@ -13,7 +13,8 @@
    operations through a copy of the Map value. *)
 From Coq Require Import ZArith List Lia.
 Import ListNotations.
-From Mds Require Import Gen.OmapConst Stree.StreeModel Stree.StreeSpec Omap.OmapModel Omap.OmapSpec Omap.OmapProofs.
+From Mds Require Import Gen.OmapConst Stree.StreeModel Stree.StreeSpec Omap.OmapModel Omap.OmapSpec Omap.OmapProofs
+  Omap.OmapSpecFacts.
 
 (* For every key and value type, every lawful comparison of keys, every depth-limit function of
    the underlying tree (so: whatever rebalancing happens), every zero key/value and every history:
@@ -30,6 +31,63 @@ Theorem C04_history : forall (K V : Type) (kcmp : K -> K -> Z), total_preorder k
   run_from K V kcmp limit zk zv (zero_map K V) ops = spec_run_from K V kcmp zk zv None ops.
 Proof. exact omap_history. Qed.
 Print Assumptions C04_history.
+
+(* ---- The reference says what the property text says.  These are statements about OmapSpec only
+   (an association list [l] ascending by key, [sorted (kvcmp K V kcmp) l]); by C04_history they
+   hold of the implementation's model output for output. *)
+
+(* Set reports true exactly for new keys, always leaves the latest value, touches no other key, and
+   keeps the list ascending *)
+Theorem C04_ref_set : forall (K V : Type) (kcmp : K -> K -> Z), total_preorder kcmp -> forall (zv : V) k v l,
+  sorted (kvcmp K V kcmp) l ->
+  snd (a_set K V kcmp k v l) = negb (snd (a_get K V kcmp zv k l)) /\
+  a_get K V kcmp zv k (fst (a_set K V kcmp k v l)) = (v, true) /\
+  (forall k', kcmp k' k <> 0%Z -> a_get K V kcmp zv k' (fst (a_set K V kcmp k v l)) = a_get K V kcmp zv k' l) /\
+  sorted (kvcmp K V kcmp) (fst (a_set K V kcmp k v l)).
+Proof. intros K V kcmp HK zv. exact (ref_set K V kcmp HK zv). Qed.
+Print Assumptions C04_ref_set.
+
+(* Delete reports whether the key was present, removes it, touches no other key *)
+Theorem C04_ref_delete : forall (K V : Type) (kcmp : K -> K -> Z), total_preorder kcmp -> forall (zv : V) k l,
+  sorted (kvcmp K V kcmp) l ->
+  snd (a_delete K V kcmp k l) = snd (a_get K V kcmp zv k l) /\
+  a_get K V kcmp zv k (fst (a_delete K V kcmp k l)) = (zv, false) /\
+  (forall k', kcmp k' k <> 0%Z -> a_get K V kcmp zv k' (fst (a_delete K V kcmp k l)) = a_get K V kcmp zv k' l).
+Proof. intros K V kcmp HK zv. exact (ref_delete K V kcmp HK zv). Qed.
+Print Assumptions C04_ref_delete.
+
+(* Seek(k) is the first entry whose key is not less than k: every earlier entry is less than k;
+   no position when every key is less than k *)
+Theorem C04_ref_seek_least : forall (K V : Type) (kcmp : K -> K -> Z) k (l : list (kv K V)),
+  match a_seek K V kcmp k l with
+  | Some j => (exists e, nth_error l j = Some e /\ ~ (kcmp (fst e) k < 0)%Z) /\
+              (forall n e, (n < j)%nat -> nth_error l n = Some e -> (kcmp (fst e) k < 0)%Z)
+  | None => forall e, In e l -> (kcmp (fst e) k < 0)%Z
+  end.
+Proof. exact a_seek_least. Qed.
+Print Assumptions C04_ref_seek_least.
+
+(* First then Next^n shows exactly the entries in ascending order and then becomes invalid; Last
+   then Prev^n the entries in descending order and then invalid ([ent e] = (true, key, value),
+   [inval] = (false, zero key, zero value)) *)
+Theorem C04_ref_enumerate : forall (K V : Type) (kcmp : K -> K -> Z) (zk : K) (zv : V) (l : list (kv K V)),
+  a_iter K V kcmp zk zv l IFirst (repeat INext (length l)) = map (ent K V) l ++ [inval K V zk zv] /\
+  a_iter K V kcmp zk zv l ILast (repeat IPrev (length l)) = map (ent K V) (rev l) ++ [inval K V zk zv].
+Proof. exact ref_enumerate. Qed.
+Print Assumptions C04_ref_enumerate.
+
+(* from Seek(k) at index j: Next to the end shows l[j..] then invalid, Prev shows l[j], ..., l[0]
+   then invalid; when there is no entry >= k the iterator is invalid at once *)
+Theorem C04_ref_from_seek : forall (K V : Type) (kcmp : K -> K -> Z) (zk : K) (zv : V) k (l : list (kv K V)),
+  match a_seek K V kcmp k l with
+  | Some j =>
+    (j < length l)%nat /\
+    a_iter K V kcmp zk zv l (ISeek k) (repeat INext (length l - j)) = map (ent K V) (skipn j l) ++ [inval K V zk zv] /\
+    a_iter K V kcmp zk zv l (ISeek k) (repeat IPrev (S j)) = map (ent K V) (rev (firstn (S j) l)) ++ [inval K V zk zv]
+  | None => a_iter K V kcmp zk zv l (ISeek k) [] = [inval K V zk zv]
+  end.
+Proof. exact iter_from_seek. Qed.
+Print Assumptions C04_ref_from_seek.
 
 (* ---- the hypotheses are satisfiable, the model computes, and the reference says what the text says *)
 Lemma zsub_preorder : total_preorder Z.sub.
@@ -51,3 +109,27 @@ Example C04_history_example :
   run_from Z Z Z.sub (fun _ n => n + 1)%Z 0%Z 0%Z None [OLen; OSet 1 1; OKeys; OIter IFirst [INext]]%Z =
   [RInt 0; RFail Panic; RKeys None; RIter [(false, 0, 0); (false, 0, 0)]]%Z.
 Proof. vm_compute. split; reflexivity. Qed.
+
+Definition ex_l : list (kv Z Z) := [(1, 10); (5, 50); (9, 90)]%Z.
+
+Example C04_ref_set_example :
+  sorted (kvcmp Z Z Z.sub) ex_l /\ a_set Z Z Z.sub 5%Z 7%Z ex_l = ([(1, 10); (5, 7); (9, 90)]%Z, false) /\
+  a_set Z Z Z.sub 6%Z 7%Z ex_l = ([(1, 10); (5, 50); (6, 7); (9, 90)]%Z, true).
+Proof. split; [cbn; repeat split; intros y Hy; cbn in Hy; intuition (subst; reflexivity)|]. vm_compute. split; reflexivity. Qed.
+
+Example C04_ref_delete_example :
+  a_delete Z Z Z.sub 5%Z ex_l = ([(1, 10); (9, 90)]%Z, true) /\ a_delete Z Z Z.sub 6%Z ex_l = (ex_l, false).
+Proof. vm_compute. split; reflexivity. Qed.
+
+Example C04_ref_seek_least_example :
+  a_seek Z Z Z.sub 5%Z ex_l = Some 1%nat /\ a_seek Z Z Z.sub 6%Z ex_l = Some 2%nat /\
+  a_seek Z Z Z.sub 0%Z ex_l = Some 0%nat /\ a_seek Z Z Z.sub 10%Z ex_l = None.
+Proof. vm_compute. repeat split; reflexivity. Qed.
+
+Example C04_ref_enumerate_example :
+  a_iter Z Z Z.sub 0%Z 0%Z ex_l IFirst [INext; INext; INext] = [(true, 1, 10); (true, 5, 50); (true, 9, 90); (false, 0, 0)]%Z.
+Proof. vm_compute. reflexivity. Qed.
+
+Example C04_ref_from_seek_example :
+  a_iter Z Z Z.sub 0%Z 0%Z ex_l (ISeek 4%Z) [IPrev; IPrev] = [(true, 5, 50); (true, 1, 10); (false, 0, 0)]%Z.
+Proof. vm_compute. reflexivity. Qed.
